@@ -443,7 +443,7 @@ def encode_ast(ctx, text):
 def impl_expandlib(case, scratch):
     """case: lib: [[name, body, need_pre]], page, opts{pre_expand, parserfns, expand_names, not_expand_names,
     tfn, pfn}, title.  Returns output, stack, messages and the ASTs the implementation really parsed."""
-    ctx = new_ctx(scratch)
+    ctx = new_ctx(scratch, **({"parser_function_aliases": case["pf_aliases"]} if case.get("pf_aliases") else {}))
     try:
         for name, body, pre in case["lib"]:
             ctx.add_page("Template:" + name, 10, body, need_pre_expand=bool(pre))
@@ -467,7 +467,10 @@ def impl_expandlib(case, scratch):
             calls.append(["t", name, [[k, v] for k, v in ht.items()]])
             if name in (o.get("tfn_reenter") or {}):
                 # a hook may use the context itself
-                ctx.expand(o["tfn_reenter"][name])
+                if o.get("tfn_reenter_hooked"):
+                    ctx.expand(o["tfn_reenter"][name], template_fn=tfn)       # the nested expansion calls the hook again
+                else:
+                    ctx.expand(o["tfn_reenter"][name])
             r = o.get("tfn_ret", {}).get(name)
             return r
 
